@@ -221,4 +221,47 @@ theorem C23_parser_recursion_guarded (u : Nat) :
     ¬ CallPath VibeProof.Generated.parserUnguardedCalls u u :=
   C23_ranked_graph_acyclic _ C23_parser_unguarded_calls_ranked u
 
+
+/-! ### left-deep chains are length-limited -/
+
+theorem chainLoop_spec (maxLinks : Nat) : ∀ (n links : Nat),
+    chainLoop maxLinks links n = (if links + n ≤ maxLinks ∨ n = 0 then .ok (links + n) else .error .tooLong) := by
+  intro n
+  induction n with
+  | zero => intro links; simp [chainLoop]
+  | succ m ih =>
+    intro links
+    unfold chainLoop
+    by_cases h : links + 1 > maxLinks
+    · simp only [h, if_true]
+      rw [if_neg (by omega)]
+    · simp only [h, if_false]
+      rw [ih (links + 1)]
+      by_cases h2 : links + 1 + m ≤ maxLinks
+      · rw [if_pos (Or.inl h2), if_pos (Or.inl (by omega))]
+        congr 1; omega
+      · by_cases hm : m = 0
+        · subst hm
+          rw [if_pos (Or.inr rfl), if_pos (Or.inl (by omega))]
+        · rw [if_neg (by omega), if_neg (by omega)]
+
+/-- **T3c (chain budget).** A left-associative chain of `n` links is parsed into a tree of depth
+    exactly `n` when `n ≤ MAX_CHAIN_LENGTH`, and is rejected otherwise — for every `n`; the tree the
+    parser hands out is never deeper than the limit. -/
+theorem C23_chain_depth_bounded (maxLinks n : Nat) :
+    chainLoop maxLinks 0 n = (if n ≤ maxLinks then .ok n else .error .tooLong) := by
+  rw [chainLoop_spec]
+  by_cases h : n ≤ maxLinks
+  · simp [h]
+  · have : n ≠ 0 := by omega
+    simp [h, this]
+
+/-- every link is counted: each loop of the parser that wraps its previous result into a new boxed
+    node (table extracted from `parser/**/*.rs` on this run; there is at least one) calls
+    `check_chain_length` at the top level of its body before the wrap.  Moving the call into one
+    branch of the loop body (so that another kind of link goes uncounted) breaks this theorem. -/
+theorem C23_tree_building_loops_count_every_link :
+    VibeProof.Generated.parserTreeLoops ≠ [] ∧
+    VibeProof.Generated.parserTreeLoops.all (fun e => e.2 == 1) = true := by decide
+
 end VibeProof.C23
